@@ -42,7 +42,7 @@ PROFILES = {
     "rtf": {
         "ext": "rtf", "render": lambda doc, **kw: rtfgen.render_rtf(doc, **kw), "selfcheck": rtfgen.balanced,
         "features": FLOW_INLINE | {"run.ins", "run.del", "run.comment-ref", "run.note-ref", "run.field", "para.heading", "list.flat", "list.nested", "table.simple",
-                                   "table.multi-para-cell", "table.empty-cell", "excluded.header-footer", "excluded.comment", "unit.multi"},
+                                   "table.multi-para-cell", "table.empty-cell", "excluded.header-footer", "excluded.comment", "unit.multi", "unit.empty"},
         "table_text_in_full_text": True, "unit_kind": "page", "max_units": 3, "decoration": [], "residue_ignore": r"\b\d{1,3}\.",  # \\listtext numbering
         "opts": {"u_words": [False, False, True], "spaced_cells": [True, True, False], "page_break": [False, False, "nested", "deep", "par-in-group"]},
     },
@@ -80,7 +80,7 @@ PROFILES = {
     "eml": {"ext": "eml", "render": lambda doc, **kw: simple.render_eml(doc, **kw), "features": {"run.multi", "run.break", "list.flat", "table.simple"},
             "table_text_in_full_text": True, "unit_kind": "message", "max_units": 1},
     "mbox": {"ext": "mbox", "render": lambda doc, **kw: simple.render_mbox(doc, **kw), "features": {"run.multi", "run.break", "list.flat", "table.simple", "unit.multi"},
-             "table_text_in_full_text": True, "unit_kind": "message", "max_units": 3, "opts": {"crlf": [False, True], "message_ids": [None, None, "none", "same"]}},
+             "table_text_in_full_text": True, "unit_kind": "message", "max_units": 3, "opts": {"crlf": [False, True], "message_ids": [None, None, "none", "same"], "forward": [False, False, True]}},
     "ppt": {"ext": "ppt", "render": lambda doc, **kw: legacy.render_ppt(doc, **kw),
             "features": {"run.multi", "run.break", "para.heading", "list.flat", "unit.multi", "unit.empty", "excluded.speaker-notes"},
             "table_text_in_full_text": True, "unit_kind": "slide", "max_units": 4, "opts": {"codepage": [65001, 65001, 1252, 1200], "text_placement": ["both", "both", "outline"], "two_titles": [False, False, True]}},
